@@ -17,7 +17,7 @@
 From Coq Require Import ZArith NArith List Bool.
 Import ListNotations.
 Require Import SR.Base.Sx SR.Base.Res SR.Base.Dec SR.Spec.Layout SR.Model.Layout SR.Model.Estruct
-  SR.Model.LayoutValue SR.Judge.JLayoutCommon SR.Judge.JEstructCommon.
+  SR.Model.LayoutValue SR.Spec.Coherence SR.Judge.JLayoutCommon SR.Judge.JEstructCommon.
 Open Scope Z_scope.
 
 Definition bytes_eqb (a b : list N) : bool :=
@@ -282,8 +282,9 @@ Definition judge (c : sx) : sx :=
     end in
   let agree := schema_agrees && forallb agree_path paths && forallb agree_top tops && keys_agree && row_agrees
                && forallb agree_neg negs && top_agrees in
-  (* the hypothesis of C10_lazy holds of every location reached *)
+  (* the hypotheses of C10_lazy / C10_commute_index hold: the emitted schema is cobol_like, every location reads inside itself *)
   let hyp :=
+    cobol_like js &&
     match mnav with
     | Ok v0 =>
         forallb (fun po => match vnav_path dcount r v0 (wpath_of (nth_sx 0 po)) with
